@@ -127,3 +127,14 @@ claim('C19', 'Lean 4 proofs (validate accepts iff well-formed; version compariso
       'corruption of the catalogue (all rejected), version strings where numeric and lexical order differ, and #require lines; the '
       'abstraction given to the model is extracted from the final definition, not from the injected fault.',
       NOTE + ' PyYAML and packaging.version are modelled (release numbers + a/b/rc); configuration errors outside the named checks are outside the catalogue.')
+
+claim('C18', 'Lean 4 proofs about the model scanner (whitespace / comment / blank-line / case / label-placement / compound-line invariance) + metamorphic correspondence on the real CLI',
+      'PARTIAL. Kernel-checked theorems about the hand-written model scanner: tokens are recovered whatever the amount and kind of '
+      'whitespace between them; comments, blank lines and indentation contribute nothing; mnemonics and registers are case-folded, other '
+      'identifiers kept; a label splits off as its own statement; a line is split where the next mnemonic starts; the program is the '
+      'concatenation of its lines. The real code uses Python regular expressions for this: they are modelled, not verified. The tie is '
+      'checked on every run: each generated program is rendered in one canonical and three random layouts (all listed rewrites at '
+      'random positions) and all must give the same image on the real CLI (the property itself), and the text re-rendered from the '
+      'model scanner\'s statement list must give that image too.',
+      NOTE + ' Runtime behaviour the model cannot exhibit: Python re on the real patterns. A data directive is always last on its line.',
+      category='proof')
